@@ -23,3 +23,18 @@ Definition eval_case (c : framing_kind * bool * fin * list (list N)) : string :=
 Definition eval_client (c : list (list (list N) * fin)) : string :=
   show_list show_run " / " (client_connections true (reader_new KTcp) c) ++ "|" ++
   show_list show_frames " / " (ref_connections (map (fun x => sched_stream (fst x) (snd x)) c)).
+
+(* emission: (destination, PDU = function code :: body) -> what Model/Format.rtu_format writes
+   into the shared 260-byte buffer | what the Spec says an RTU frame is *)
+From Rodbus Require Import Base.Outcome Base.Cursor Model.Format Gen.Consts.
+Definition eval_emit (c : N * list N) : string :=
+  let '(dest, pdu) := c in
+  match pdu with
+  | fcv :: body =>
+      match rtu_format tt buffer_capacity dest fcv (fun w => of_option tt (wr_bytes w body)) with
+      | Ok bs => show_bytes bs
+      | Err _ => "ERR"
+      | Panic => "PANIC"
+      end
+  | [] => "NOPDU"
+  end ++ "|" ++ show_bytes (rtu_frame_of dest pdu).
